@@ -2,7 +2,7 @@
    heap (with its ledger) to the collector that manages it, and its preservation by allocation,
    in-place update, collection; counting alive boxes.  Used by VMGCProofs.v. *)
 From NL.Spec Require Import VMInv.
-From NL.Proofs Require Import GCListLemmas GCProofs.
+From NL.Proofs Require Import GCListLemmas GCProofs WordProofs OpsProofs.
 From Coq Require Import Permutation Lia SetoidList.
 Open Scope Z_scope.
 
@@ -479,4 +479,353 @@ Proof.
   - apply (inv_nodup h g Hg).
   - apply (inv_heap_vals h g Hg).
   - intros l. split; [apply (hi_am h g Hi)|apply (managed_alive h g l Hg)].
+Qed.
+
+(** * What an operation hands to [with_new]: an old value, or a fresh float / string box *)
+
+Inductive new_res (h : heap) : val * heap -> Prop :=
+| nr_same : forall v, val_ok h v = true -> new_res h (v, h)
+| nr_float : forall f, new_res h (VFloat (next_loc h), snd (h_alloc h (OFloat f)))
+| nr_str : forall t, new_res h (VStr (next_loc h), snd (h_alloc h (OStr t))).
+
+Definition loc_small (v : val) : Prop := forall l, val_loc v = Some l -> Zpos l <? 2 ^ 60 = true.
+
+Lemma tag_encode_all : forall v, w_tag (encode v) = Some (val_tag v).
+Proof.
+  intros [|b|z|ip n|l|l|l]; cbn [encode val_tag].
+  - reflexivity.
+  - apply bool_roundtrip.
+  - apply w_tag_w_int.
+  - unfold w_function. rewrite shiftl3. apply w_tag_with_type. apply wrap8_mod.
+  - unfold w_heap, addr_of_loc. apply w_tag_with_type. rewrite Z.mul_comm. apply Z_mod_mult.
+  - unfold w_heap, addr_of_loc. apply w_tag_with_type. rewrite Z.mul_comm. apply Z_mod_mult.
+  - unfold w_heap, addr_of_loc. apply w_tag_with_type. rewrite Z.mul_comm. apply Z_mod_mult.
+Qed.
+
+Lemma deref_small : forall h v l, loc_small v -> val_loc v = Some l ->
+  deref_heap h (encode v) = match h_get h l with Ok o => Some o | _ => None end.
+Proof.
+  intros h v l Hs Hl. apply deref_heap_encode; [|exact Hl].
+  destruct v; simpl in Hl; try discriminate Hl; simpl; apply Hs; reflexivity.
+Qed.
+
+Lemma get_float_ok : forall h l, val_ok h (VFloat l) = true -> exists x, PM.find l (cells h) = Some (true, OFloat x).
+Proof.
+  intros h l H. simpl in H. destruct (PM.find l (cells h)) as [[[|] [x|s|vs]]|]; try discriminate.
+  exists x; reflexivity.
+Qed.
+Lemma get_str_ok : forall h l, val_ok h (VStr l) = true -> exists x, PM.find l (cells h) = Some (true, OStr x).
+Proof.
+  intros h l H. simpl in H. destruct (PM.find l (cells h)) as [[[|] [x|s|vs]]|]; try discriminate.
+  exists s; reflexivity.
+Qed.
+Lemma get_arr_ok' : forall h l, val_ok h (VArr l) = true -> exists x, PM.find l (cells h) = Some (true, OArr x).
+Proof.
+  intros h l H. simpl in H. destruct (PM.find l (cells h)) as [[[|] [x|s|vs]]|]; try discriminate.
+  exists vs; reflexivity.
+Qed.
+
+Lemma get_float_eq : forall h l x, PM.find l (cells h) = Some (true, OFloat x) -> get_float h l = Ok x.
+Proof. intros h l x H. unfold get_float, h_get. rewrite H. reflexivity. Qed.
+Lemma get_str_eq : forall h l x, PM.find l (cells h) = Some (true, OStr x) -> get_str h l = Ok x.
+Proof. intros h l x H. unfold get_str, h_get. rewrite H. reflexivity. Qed.
+Lemma get_arr_eq : forall h l x, PM.find l (cells h) = Some (true, OArr x) -> get_arr h l = Ok x.
+Proof. intros h l x H. unfold get_arr, h_get. rewrite H. reflexivity. Qed.
+
+Lemma h_get_eq : forall h l o, PM.find l (cells h) = Some (true, o) -> h_get h l = Ok o.
+Proof. intros h l o H. unfold h_get. rewrite H. reflexivity. Qed.
+
+Lemma checked_int_some : forall r w, checked_int r = Some w ->
+  exists z, in_int_range z = true /\ w = w_int z.
+Proof.
+  intros [z|] w H; simpl in H; [|discriminate].
+  destruct (in_int_range z) eqn:E; [|discriminate]. inversion H. exists z. split; [exact E|reflexivity].
+Qed.
+
+Lemma cmp_table : forall m sym ord, assoc3 m cmp_methods = Some (sym, ord) ->
+  In (sym, ord) [(">", true); (">=", true); ("<", true); ("<=", true); ("==", false); ("!=", false)]%string.
+Proof.
+  intros m sym ord H. unfold cmp_methods in H. cbn [assoc3] in H.
+  repeat match type of H with (if ?c then _ else _) = _ => destruct c end;
+    inversion H; subst; simpl; tauto.
+Qed.
+
+Lemma non_heap_unwrap : non_heap_fault FUnwrap.
+Proof. repeat split; discriminate. Qed.
+
+Section BinopSpec.
+  Variable orc : oracle.
+  Variable h : heap.
+
+  Lemma lift_new_float : forall f, lift_wres h (WNewFloat f) = Ok (VFloat (next_loc h), snd (h_alloc h (OFloat f))).
+  Proof. reflexivity. Qed.
+
+  (* equality answers on two well-typed operands of the same non-array type *)
+  Lemma w_eq_some : forall a b, val_ok h a = true -> val_ok h b = true -> loc_small a -> loc_small b ->
+    val_tag a = val_tag b -> val_tag a <> TArray ->
+    w_eq (deref_heap h) (val_tag a) (encode a) (encode b) <> None.
+  Proof.
+    intros a b Ha Hb Sa Sb Ht Hna.
+    destruct a as [|x|x|i n|l|l|l]; destruct b as [|y|y|j k|l'|l'|l']; simpl in Ht; try discriminate Ht;
+      cbn [val_tag w_eq]; try discriminate.
+    - rewrite (deref_small h (VFloat l) l Sa eq_refl), (deref_small h (VFloat l') l' Sb eq_refl).
+      destruct (get_float_ok h l Ha) as [x Hx]. destruct (get_float_ok h l' Hb) as [y Hy].
+      rewrite (h_get_eq _ _ _ Hx), (h_get_eq _ _ _ Hy). discriminate.
+    - rewrite (deref_small h (VStr l) l Sa eq_refl), (deref_small h (VStr l') l' Sb eq_refl).
+      destruct (get_str_ok h l Ha) as [x Hx]. destruct (get_str_ok h l' Hb) as [y Hy].
+      rewrite (h_get_eq _ _ _ Hx), (h_get_eq _ _ _ Hy). discriminate.
+    - exfalso. apply Hna. reflexivity.
+  Qed.
+
+  Lemma w_pcmp_some : forall a b, val_ok h a = true -> val_ok h b = true -> loc_small a -> loc_small b ->
+    val_tag a = val_tag b -> val_tag a <> TArray -> val_tag a <> TFunction ->
+    w_partial_cmp (deref_heap h) (val_tag a) (encode a) (encode b) <> None.
+  Proof.
+    intros a b Ha Hb Sa Sb Ht Hna Hnf.
+    destruct a as [|x|x|i n|l|l|l]; destruct b as [|y|y|j k|l'|l'|l']; simpl in Ht; try discriminate Ht;
+      cbn [val_tag w_partial_cmp]; try discriminate.
+    - exfalso. apply Hnf. reflexivity.
+    - rewrite (deref_small h (VFloat l) l Sa eq_refl), (deref_small h (VFloat l') l' Sb eq_refl).
+      destruct (get_float_ok h l Ha) as [x Hx]. destruct (get_float_ok h l' Hb) as [y Hy].
+      rewrite (h_get_eq _ _ _ Hx), (h_get_eq _ _ _ Hy). discriminate.
+    - rewrite (deref_small h (VStr l) l Sa eq_refl), (deref_small h (VStr l') l' Sb eq_refl).
+      destruct (get_str_ok h l Ha) as [x Hx]. destruct (get_str_ok h l' Hb) as [y Hy].
+      rewrite (h_get_eq _ _ _ Hx), (h_get_eq _ _ _ Hy). discriminate.
+    - exfalso. apply Hna. reflexivity.
+  Qed.
+
+  Lemma cmp_sym_some : forall sym ord a b, 
+    In (sym, ord) [(">", true); (">=", true); ("<", true); ("<=", true); ("==", false); ("!=", false)]%string ->
+    val_ok h a = true -> val_ok h b = true -> loc_small a -> loc_small b ->
+    val_tag a = val_tag b ->
+    (tag_eqb (val_tag a) TArray || (ord && tag_eqb (val_tag a) TFunction)) = false ->
+    cmp_sym (deref_heap h) sym (val_tag a) (encode a) (encode b) <> None.
+  Proof.
+    intros sym ord a b Hin Ha Hb Sa Sb Ht Hex.
+    apply Bool.orb_false_iff in Hex. destruct Hex as [Hna Hnf].
+    assert (Hna' : val_tag a <> TArray) by (intros E; rewrite E in Hna; discriminate).
+    pose proof (w_eq_some a b Ha Hb Sa Sb Ht Hna') as He.
+    simpl in Hin.
+    destruct Hin as [E|[E|[E|[E|[E|[E|[]]]]]]]; inversion E; subst sym ord; unfold cmp_sym; cbn [String.eqb Ascii.eqb Bool.eqb];
+      try (assert (Hnf' : val_tag a <> TFunction) by (intros E'; rewrite E' in Hnf; discriminate);
+           pose proof (w_pcmp_some a b Ha Hb Sa Sb Ht Hna' Hnf') as Hp;
+           destruct (w_partial_cmp (deref_heap h) (val_tag a) (encode a) (encode b)); [discriminate|exfalso; apply Hp; reflexivity]).
+    - destruct (w_eq (deref_heap h) (val_tag a) (encode a) (encode b)); [discriminate|exfalso; apply He; reflexivity].
+    - destruct (w_eq (deref_heap h) (val_tag a) (encode a) (encode b)); [discriminate|exfalso; apply He; reflexivity].
+  Qed.
+
+  Theorem binop_spec : forall m a b, val_ok h a = true -> val_ok h b = true ->
+    match binop orc m h a b with
+    | Ok r => new_res h r
+    | Fault f => loc_small a -> loc_small b -> non_heap_fault f
+    | _ => True
+    end.
+  Proof.
+    intros m a b Ha Hb. unfold binop, w_method.
+    destruct (assoc3 m arith_methods) as [[sym chk]|] eqn:Ear.
+    { unfold w_arith. rewrite !tag_encode_all.
+      destruct (tag_eqb (val_tag a) (val_tag b)) eqn:Et; cbn [negb]; [|exact I].
+      apply tag_eqb_iff in Et.
+      destruct a as [|x|x|i n|l|l|l]; cbn [val_tag]; try exact I.
+      - destruct (checked_int _) as [w|] eqn:Ec; [|exact I].
+        apply checked_int_some in Ec. destruct Ec as [z [Hz ->]]. rewrite (lift_int h z Hz).
+        apply nr_same. reflexivity.
+      - destruct b as [|y|y|j k|l'|l'|l']; simpl in Et; try discriminate Et.
+        destruct (deref_heap h (encode (VFloat l))) as [[x|s|vs]|] eqn:Ea;
+          destruct (deref_heap h (encode (VFloat l'))) as [[y|s'|vs']|] eqn:Eb;
+          try (cbn [lift_wres]; intros Sa Sb;
+               rewrite (deref_small h (VFloat l) l Sa eq_refl) in Ea;
+               rewrite (deref_small h (VFloat l') l' Sb eq_refl) in Eb;
+               destruct (get_float_ok h l Ha) as [x0 Hx]; destruct (get_float_ok h l' Hb) as [y0 Hy];
+               rewrite (h_get_eq _ _ _ Hx) in Ea; rewrite (h_get_eq _ _ _ Hy) in Eb; discriminate).
+        destruct (float_arith orc sym x y) as [f|].
+        + rewrite lift_new_float. apply nr_float.
+        + cbn [lift_wres]. intros _ _. exact non_heap_unwrap. }
+    destruct (assoc3 m cmp_methods) as [[sym ord]|] eqn:Ecm.
+    { apply cmp_table in Ecm. unfold w_cmp. rewrite !tag_encode_all.
+      destruct (tag_eqb (val_tag a) (val_tag b)) eqn:Et; cbn [negb]; [|exact I].
+      apply tag_eqb_iff in Et.
+      destruct (tag_eqb (val_tag a) TArray || (ord && tag_eqb (val_tag a) TFunction)) eqn:Eex; [exact I|].
+      destruct (cmp_sym (deref_heap h) sym (val_tag a) (encode a) (encode b)) as [r|] eqn:Ecs.
+      - rewrite lift_bool. apply nr_same. reflexivity.
+      - cbn [lift_wres]. intros Sa Sb. exfalso.
+        exact (cmp_sym_some sym ord a b Ecm Ha Hb Sa Sb Et Eex Ecs). }
+    destruct (assoc2 m logical_methods) as [sym|] eqn:Elg.
+    { unfold w_logical. rewrite !tag_encode_all.
+      destruct (val_tag a); destruct (val_tag b); try exact I.
+      destruct (String.eqb sym "&&"); [rewrite lift_bool; apply nr_same; reflexivity|].
+      destruct (String.eqb sym "||"); [rewrite lift_bool; apply nr_same; reflexivity|].
+      cbn [lift_wres]. intros _ _. exact non_heap_unwrap. }
+    cbn [lift_wres]. intros _ _. exact non_heap_unwrap.
+  Qed.
+End BinopSpec.
+
+Lemma negate_spec : forall h v, val_ok h v = true ->
+  match negate h v with
+  | Ok r => new_res h r
+  | Fault f => non_heap_fault f
+  | _ => True
+  end.
+Proof.
+  intros h v Hv. destruct v as [|x|z|i n|l|l|l]; cbn [negate]; try exact I.
+  - destruct (checked_int _) as [w|] eqn:Ec; [|exact I].
+    apply checked_int_some in Ec. destruct Ec as [z' [Hz ->]].
+    rewrite <- encode_int. rewrite (decode_encode (VInt z') Hz). apply nr_same. reflexivity.
+  - destruct (get_float_ok h l Hv) as [x Hx]. rewrite (get_float_eq _ _ _ Hx). cbn [bind h_alloc].
+    apply nr_float.
+Qed.
+
+(** * Builtins *)
+
+Section BuiltinSpec.
+  Variable orc : oracle.
+  Variable h : heap.
+  Variable g : gc.
+  Hypothesis Hi : HeapInv h g.
+
+  Lemma arr_elems_ok : forall l vs, PM.find l (cells h) = Some (true, OArr vs) -> oks h vs.
+  Proof.
+    intros l vs Hf v Hin.
+    assert (Hm : managed g l).
+    { apply (hi_am h g Hi). unfold h_alive. rewrite Hf. reflexivity. }
+    eapply (inv_elems_ok h g (hi_gc h g Hi)); eassumption.
+  Qed.
+
+  Lemma show_val_no_fault : forall fuel v, val_ok h v = true -> forall f, show_val orc fuel h v <> Fault f.
+  Proof.
+    induction fuel as [|fuel IH]; intros v Hv f; [discriminate|].
+    destruct v as [|x|z|i n|l|l|l]; cbn [show_val]; try discriminate.
+    - destruct (get_float_ok h l Hv) as [x Hx]. rewrite (get_float_eq _ _ _ Hx). discriminate.
+    - destruct (get_str_ok h l Hv) as [x Hx]. rewrite (get_str_eq _ _ _ Hx). discriminate.
+    - destruct (get_arr_ok' h l Hv) as [vs Hx]. rewrite (get_arr_eq _ _ _ Hx). cbn [bind].
+      pose proof (arr_elems_ok l vs Hx) as Hel.
+      match goal with |- bind (?go vs true) _ <> _ => 
+        assert (Hgo : forall ws first, oks h ws -> forall f', go ws first <> Fault f') end.
+      { induction ws as [|w ws IHws]; intros first Hws f'; [discriminate|].
+        cbn beta iota. 
+        destruct (show_val orc fuel h w) as [t| | |] eqn:Ew; cbn [bind]; try discriminate.
+        - specialize (IHws false (fun x Hx' => Hws x (or_intror Hx')) f').
+          match goal with |- bind ?e _ <> _ => destruct e eqn:Er end; cbn [bind]; try discriminate.
+          exact IHws.
+        - exfalso. exact (IH w (Hws w (or_introl eq_refl)) _ Ew). }
+      specialize (Hgo vs true Hel f).
+      match goal with |- bind ?e _ <> _ => destruct e eqn:Er end; cbn [bind]; try discriminate.
+      exact Hgo.
+  Qed.
+
+  Lemma display_no_fault : forall v, val_ok h v = true -> forall f, display orc h v <> Fault f.
+  Proof. intros v Hv f. apply show_val_no_fault. exact Hv. Qed.
+
+  Lemma fill_no_fault : forall args rest, oks h args -> forall f, fill orc h rest args <> Fault f.
+  Proof.
+    induction args as [|a more IH]; intros rest Hok f; [discriminate|].
+    cbn [fill]. destruct (find_placeholder rest) as [[before after]|]; [|discriminate].
+    destruct (display orc h a) as [t| | |] eqn:Ed; cbn [bind]; try discriminate.
+    - specialize (IH after (fun x Hx => Hok x (or_intror Hx)) f).
+      destruct (fill orc h after more); cbn [bind]; try discriminate. exact IH.
+    - exfalso. exact (display_no_fault a (Hok a (or_introl eq_refl)) _ Ed).
+  Qed.
+
+  Lemma call_print_no_fault : forall args, oks h args -> forall f, call_print orc h args <> Fault f.
+  Proof.
+    intros [|a0 rest] Hok f; cbn [call_print]; [discriminate|].
+    destruct (display orc h a0) as [t| | |] eqn:Ed; cbn [bind]; try discriminate.
+    - pose proof (fill_no_fault rest t (fun x Hx => Hok x (or_intror Hx)) f) as Hf.
+      destruct (fill orc h t rest); cbn [bind]; try discriminate. exact Hf.
+    - exfalso. exact (display_no_fault a0 (Hok a0 (or_introl eq_refl)) _ Ed).
+  Qed.
+
+  Lemma alloc_str_eq : forall s, alloc_str h s = (VStr (next_loc h), snd (h_alloc h (OStr s))).
+  Proof. reflexivity. Qed.
+  Lemma alloc_float_eq : forall x, alloc_float h x = (VFloat (next_loc h), snd (h_alloc h (OFloat x))).
+  Proof. reflexivity. Qed.
+
+  Definition res_spec (r : outcome (val * heap)) : Prop :=
+    match r with Ok r => new_res h r | Fault f => non_heap_fault f | _ => True end.
+
+  Ltac one_arg_tac args Hok a Ha :=
+    destruct args as [|a [|? ?]]; cbn [one_arg]; try exact I;
+    pose proof (Hok a (or_introl eq_refl)) as Ha.
+
+  Lemma ranged_spec : forall z, res_spec (ranged_int h z).
+  Proof. intros z. unfold ranged_int. destruct (in_int_range z); [apply nr_same; reflexivity|exact I]. Qed.
+
+  Lemma call_type_spec : forall args, oks h args -> res_spec (call_type h args).
+  Proof.
+    intros args Hok. unfold call_type. one_arg_tac args Hok a Ha.
+    rewrite alloc_str_eq. apply nr_str.
+  Qed.
+
+  Lemma call_string_spec : forall args, oks h args -> res_spec (call_string orc h args).
+  Proof.
+    intros args Hok. unfold call_string. one_arg_tac args Hok a Ha.
+    destruct a as [|x|z|i n|l|l|l]; try exact I; try (rewrite alloc_str_eq; apply nr_str).
+    - destruct (get_float_ok h l Ha) as [x Hx]. rewrite (get_float_eq _ _ _ Hx). cbn [bind].
+      rewrite alloc_str_eq. apply nr_str.
+    - apply nr_same. exact Ha.
+  Qed.
+
+  Lemma call_bool_spec : forall args, oks h args -> res_spec (call_bool h args).
+  Proof.
+    intros args Hok. unfold call_bool. one_arg_tac args Hok a Ha.
+    destruct a as [|x|z|i n|l|l|l]; try exact I; try (apply nr_same; reflexivity).
+    - destruct (get_float_ok h l Ha) as [x Hx]. rewrite (get_float_eq _ _ _ Hx). apply nr_same; reflexivity.
+    - destruct (get_str_ok h l Ha) as [x Hx]. rewrite (get_str_eq _ _ _ Hx). apply nr_same; reflexivity.
+    - destruct (get_arr_ok' h l Ha) as [x Hx]. rewrite (get_arr_eq _ _ _ Hx). apply nr_same; reflexivity.
+  Qed.
+
+  Lemma call_int_spec : forall args, oks h args -> res_spec (call_int h args).
+  Proof.
+    intros args Hok. unfold call_int. one_arg_tac args Hok a Ha.
+    destruct a as [|x|z|i n|l|l|l]; try exact I; try apply ranged_spec; try (apply nr_same; reflexivity).
+    - destruct (get_float_ok h l Ha) as [x Hx]. rewrite (get_float_eq _ _ _ Hx). apply ranged_spec.
+    - destruct (get_str_ok h l Ha) as [x Hx]. rewrite (get_str_eq _ _ _ Hx). cbn [bind].
+      destruct (parse_isize (trim x)); [apply ranged_spec|exact I].
+  Qed.
+
+  Lemma call_float_spec : forall args, oks h args -> res_spec (call_float orc h args).
+  Proof.
+    intros args Hok. unfold call_float. one_arg_tac args Hok a Ha.
+    destruct a as [|x|z|i n|l|l|l]; try exact I; try (rewrite alloc_float_eq; apply nr_float).
+    - apply nr_same. exact Ha.
+    - destruct (get_str_ok h l Ha) as [x Hx]. rewrite (get_str_eq _ _ _ Hx). cbn [bind].
+      destruct (parse_float orc x); [rewrite alloc_float_eq; apply nr_float|exact I].
+  Qed.
+
+  Lemma call_length_spec : forall args, oks h args -> res_spec (call_length h args).
+  Proof.
+    intros args Hok. unfold call_length. one_arg_tac args Hok a Ha.
+    destruct a as [|x|z|i n|l|l|l]; try exact I.
+    - destruct (get_str_ok h l Ha) as [x Hx]. rewrite (get_str_eq _ _ _ Hx). apply nr_same; reflexivity.
+    - destruct (get_arr_ok' h l Ha) as [x Hx]. rewrite (get_arr_eq _ _ _ Hx). apply nr_same; reflexivity.
+  Qed.
+
+  Theorem call_builtin_spec : forall bi args, oks h args ->
+    match call_builtin orc bi h args with
+    | Ok (r, printed) => new_res h r
+    | Fault f => non_heap_fault f
+    | _ => True
+    end.
+  Proof.
+    intros bi args Hok. destruct bi; cbn [call_builtin].
+    - pose proof (call_print_no_fault args Hok) as Hp.
+      destruct (call_print orc h args) as [t| |f|]; cbn [bind]; try exact I.
+      + apply nr_same. reflexivity.
+      + exfalso. exact (Hp f eq_refl).
+    - pose proof (call_type_spec args Hok) as H. destruct (call_type h args) as [r| | |]; exact H.
+    - pose proof (call_bool_spec args Hok) as H. destruct (call_bool h args) as [r| | |]; exact H.
+    - pose proof (call_float_spec args Hok) as H. destruct (call_float orc h args) as [r| | |]; exact H.
+    - pose proof (call_int_spec args Hok) as H. destruct (call_int h args) as [r| | |]; exact H.
+    - pose proof (call_string_spec args Hok) as H. destruct (call_string orc h args) as [r| | |]; exact H.
+    - pose proof (call_length_spec args Hok) as H. destruct (call_length h args) as [r| | |]; exact H.
+  Qed.
+End BuiltinSpec.
+
+(* roots that only differ in non-heap values and order reach the same boxes *)
+Lemma reach_incl_heap : forall h r1 r2 l,
+  (forall v k, In v r1 -> val_loc v = Some k -> In v r2) -> reach h r1 l -> reach h r2 l.
+Proof.
+  intros h r1 r2 l Hi Hr. induction Hr as [v l Hin Hl | la a vs v l Hr IH Hf Hin Hl].
+  - eapply reach_root; [eapply Hi; eassumption|exact Hl].
+  - eapply reach_elem; eassumption.
 Qed.
